@@ -476,10 +476,10 @@ func evalConstructorDeclareStmt(vm *r.VM, node *syntax.FunctionDeclareStmt) erro
 // moduleDefinesClass - whether the type itself (not just a local name bound to it, e.g.
 // 令T = <imported type>) has been defined by a 定义 statement of this module
 func moduleDefinesClass(module *r.Module, cmodel *value.ClassModel) bool {
-	for _, v := range module.GetAllExportValues() {
-		if cm, ok := v.(*value.ClassModel); ok && cm == cmodel {
-			return true
-		}
+	// every type written in Zn remembers the module whose code defines it (also a type that
+	// is local to a method body and therefore not among the module's exports)
+	if definer := cmodel.GetModule(); definer != nil {
+		return definer.GetID() == module.GetID()
 	}
 	return false
 }
